@@ -60,6 +60,15 @@ def make_env(name, shift=0):
         env = TradingEnv(BoxPortfolio(cs, -1.0, 1.5), state=feats, transmitter=tr, initial_cash=1000.0)
         actions = [np.array([0.5, 0.25]), np.array([-0.25, 1.0])]
         bad = np.array([9.0, 9.0])
+    elif name == "holey":
+        # timesteps 1 and 3 carry no event at all (a holiday inside the calendar); fold f2 starts after the first of them
+        G = _days(datetime(2021, 3, 1) + timedelta(days=28 * shift), 7)
+        cs = [ETF("A"), ETF("B")]
+        tr = Transmitter(list(G), folds={"training-set": [G[0], G[-1]], "f2": [G[2], G[-1]]})
+        tr.add_events([e for e in bar_events(G, cs, base=50.0, spread=1.0, step=3.0) if e.time not in (G[1], G[3])])
+        env = TradingEnv(BoxPortfolio(cs, -1.0, 1.5), state=[FeaturePrices(cs)], transmitter=tr, initial_cash=1000.0)
+        actions = [np.array([0.5, 0.25]), np.array([-0.25, 1.0])]
+        bad = np.array([9.0, 9.0])
     elif name == "fees":
         G = [datetime(2021, 3, 1, 10, 0) + timedelta(days=28 * shift, minutes=i) for i in range(6)]
         cs = [ETF("A"), UC("FUT", 2.0, 0.0, 0.25)]
@@ -314,7 +323,7 @@ def all_schedules(n):
 def run(tier, **kw):
     rep = Report("C10", tier, LEVEL)
     depth = 3 if tier == "quick" else 5
-    configs = ["etf2", "fees", "chain", "window", "disc"]
+    configs = ["etf2", "fees", "chain", "window", "disc", "holey"]
     hists = [h for d in range(depth + 1) for h in itertools.product(range(len(CALLS)), repeat=d)]
     units = []
     for name in configs:
@@ -353,8 +362,8 @@ def run(tier, **kw):
     rep.set("schedule_distinct_outcomes", len(souts))
     rep.set("schedule_pairs", [list(p) for p in PAIRS])
     rep.set("exhaustive", True)
-    rep.set("rule", "sequential: every call history of length <= depth over 8 calls (reset fold 1/2, step a1/a2, malformed step, run to done, reset with a sampled 3-step / 2-step episode window) for 5 "
-                    "configurations (2 ETFs with library features; ETF+margined with fees, latency and delay; ES chain across a roll; windowed State; "
+    rep.set("rule", "sequential: every call history of length <= depth over 8 calls (reset fold 1/2, step a1/a2, malformed step, run to done, reset with a sampled 3-step / 2-step episode window) for 6 "
+                    "configurations (2 ETFs with library features; the same on a grid with two event-less timesteps; ETF+margined with fees, latency and delay; ES chain across a roll; windowed State; "
                     "discrete space with delay 2), followed by a probe episode compared bit-for-bit (float.hex / array bytes) with a fresh environment; "
                     "non-trivial = history with at least one successful call. schedules: ALL C(2n,n) interleavings of two n-call scripts for 7 pairs "
                     "of environments (incl. two chain environments at different dates), each compared with its run-alone trace; non-trivial = schedule with >= 2 switches")
